@@ -34,6 +34,9 @@ func collect(sc *Scenario, recs []*opRec) (evs [][]*chanEv, maxStamp uint64) {
 		if r.Inv > maxStamp {
 			maxStamp = r.Inv
 		}
+		if r.Op.K != "select" && r.Op.Ch < 0 {
+			continue // an operation on a nil channel: it blocks forever and touches no channel
+		}
 		if r.Op.K != "select" {
 			e := &chanEv{r: r, ch: r.Op.Ch, kind: r.Op.K, val: r.Op.Val, pending: r.Ret == 0}
 			evs[e.ch] = append(evs[e.ch], e)
@@ -78,6 +81,11 @@ func check(sc *Scenario, s *sim.Sim, recs []*opRec, res *driver.Result) (string,
 	}
 	if s.End == sim.EndStepCap {
 		return "liveness", fmt.Sprintf("no quiescence within %d fair fault-free steps after %d steps", s.Cfg.LiveSteps, s.Cfg.MaxSteps)
+	}
+	for _, r := range recs {
+		if r.Op.K != "select" && r.Op.Ch < 0 && (r.Ret != 0 || r.Stray != "") {
+			return "nil-channel-op-returned", fmt.Sprintf("t%d op%d: %s on a nil channel returned; it must block forever", r.Task, r.Idx, r.Op.K)
+		}
 	}
 	evs, maxStamp := collect(sc, recs)
 
@@ -280,7 +288,10 @@ func check(sc *Scenario, s *sim.Sim, recs []*opRec, res *driver.Result) (string,
 	if cls, det := stuck(sc, s, evs, recs, res); cls != "" {
 		return cls, det
 	}
-	return defaultOracle(sc, recs, evs)
+	if cls, det := defaultOracle(sc, recs, evs); cls != "" {
+		return cls, det
+	}
+	return parkedPeerOracle(sc, recs, res)
 }
 
 // ---- buffered channels: linearizability against a bounded FIFO queue -------------------
@@ -542,6 +553,105 @@ func stuck(sc *Scenario, s *sim.Sim, evs [][]*chanEv, recs []*opRec, res *driver
 	}
 	if first != "" {
 		return "stuck", first
+	}
+	return "", ""
+}
+
+// ---- select default on an unbuffered channel: not while a peer is parked ---------------------
+//
+// A send (receive) case on an unbuffered channel is ready when a receiver
+// (sender) is waiting on it.  "Waiting" cannot be read off invocation stamps (a
+// task may have invoked its receive without having reached the channel yet), so
+// this oracle uses the simulator's knowledge: a peer counts if it was asleep when
+// the select with default was invoked, its pending operation is a blocking
+// receive (send) on the channel, or a blocking select with such a case, and it
+// was still pending when the select returned.  Every other operation of the
+// same direction as the select's case that overlaps the call may have taken
+// one such peer; what remains must be positive for a verdict.
+func parkedPeerOracle(sc *Scenario, recs []*opRec, res *driver.Result) (string, string) {
+	for _, r := range recs {
+		if r.Op.K != "select" || !r.Op.Default || r.Ret == 0 || r.Sel != -1 || r.Parked == nil {
+			continue
+		}
+		for k, cs := range r.Op.Cases {
+			if cs.Ch < 0 || sc.Chans[cs.Ch].Cap != 0 {
+				continue
+			}
+			peers, plainPeers, rivals, closed := 0, 0, 0, false
+			selectAround := false
+			for _, q := range recs {
+				if q == r || q.Inv == 0 {
+					continue
+				}
+				overlaps := q.Inv < r.Ret && (q.Ret == 0 || q.Ret > r.Inv)
+				if q.Op.K == "select" && overlaps {
+					for _, qc := range q.Op.Cases {
+						selectAround = selectAround || qc.Ch == cs.Ch
+					}
+				}
+				if q.Op.K == "close" && q.Op.Ch == cs.Ch && q.Inv < r.Ret {
+					closed = true
+				}
+				// does q contain a blocking operation of the opposite direction on this channel?
+				opposite, same, plain := false, false, false
+				switch q.Op.K {
+				case "send", "recv":
+					if q.Op.Ch == cs.Ch {
+						if (q.Op.K == "send") != cs.Send {
+							opposite, plain = true, true
+						} else {
+							same = true
+						}
+					}
+				case "select":
+					for _, qc := range q.Op.Cases {
+						if qc.Ch == cs.Ch {
+							if qc.Send != cs.Send {
+								opposite = opposite || !q.Op.Default
+							} else {
+								same = true
+							}
+						}
+					}
+				}
+				if opposite && q.Inv < r.Inv && (q.Ret == 0 || q.Ret > r.Ret) && r.Parked[q.Task] {
+					peers++
+					if plain {
+						plainPeers++
+					}
+				}
+				if same && overlaps {
+					rivals++
+				}
+			}
+			if closed || peers-rivals <= 0 {
+				continue
+			}
+			dir := map[bool]string{true: "receiver", false: "sender"}[cs.Send]
+			detail := fmt.Sprintf("t%d op%d: %s took default although %d %s(s) had been asleep on unbuffered ch%d since before the select began and stayed so until after it returned (case %d; %d of them in a plain operation; %d rival operation(s) overlapped)", r.Task, r.Idx, r.Op, peers, dir, cs.Ch, k, plainPeers, rivals)
+			tags := []string{"unbuffered", "peer-asleep-during-the-whole-call"}
+			if plainPeers == 0 {
+				tags = append(tags, "every-waiting-peer-is-a-select")
+			} else if plainPeers-rivals <= 0 {
+				tags = append(tags, "plain-peers-possibly-taken-by-rivals")
+			} else {
+				tags = append(tags, "plain-peer-waiting")
+			}
+			if plainPeers >= 2 || peers >= 2 {
+				tags = append(tags, "several-peers-waiting")
+			}
+			if cs.Send && r.Announced[cs.Ch] && rivals == 0 && !selectAround {
+				// the channel itself said "a receiver waits": no excuse in its design
+				tags = append(tags, "handoff-slot-announced-a-waiting-receiver")
+			}
+			if cs.Send {
+				tags = append(tags, "try-send")
+			} else {
+				tags = append(tags, "try-receive")
+			}
+			res.Items = append(res.Items, driver.Item{Tags: tags, Detail: detail})
+			return "default-while-ready", detail
+		}
 	}
 	return "", ""
 }
